@@ -489,6 +489,9 @@ TParEnd ==
   /\ l' = l + 1 /\ vres' = vres /\ ctxs' = ctxs /\ pool' = pool /\ regs' = Adopt /\ dgs' = Ev.dg
   /\ bad' = bad \cup (IF \A r \in Named : Canonical(Ev.post[r]) /\ Got(r) = regs[r] THEN {} ELSE {<<l, "C18", "shared-or-private-register-changed", "">>})
                 \cup (IF Ev.ret.truncated \/ pool = <<>> THEN {} ELSE {<<l, "C18", "pool-buffer-never-returned", "">>})
+                \* "no operand is modified": the raw observation (mantissa words included) of every register that no goroutine
+                \* writes is the same after the block as before it - a write that keeps the value is still a write
+                \cup (IF \A r \in DOMAIN Ev.ret.before : Ev.ret.before[r] = Ev.ret.after[r] THEN {} ELSE {<<l, "C18", "shared-operand-written", "">>})
   /\ cov' = Bump({"ParEnd"})
 (* the division-by-10^k tables as dumped from the library (hook VerifMagic): every row satisfies the sufficient condition *)
 TMagic ==
